@@ -311,6 +311,22 @@ def int_binop(fr, op, l, r, node):
         if isinstance(res, int) and res >= 0:
             return res
         return res
+    if getattr(A, "signed", False) or getattr(B, "signed", False):
+        # two's-complement abstract integers: only what keeps the representation exact is modelled
+        sb = I.simp(A.bits[-1]) if getattr(A, "signed", False) and A.bits else None
+        if getattr(A, "signed", False) and not getattr(B, "signed", False) and isinstance(sb, F) and sb.is_const and sb.c == 0:
+            A = AInt(list(A.bits[:-1]) or [ZERO])          # provably non-negative: an ordinary unsigned value
+        elif isinstance(op, ast.LShift) and rc is not None and getattr(A, "signed", False) and A.ext is None and not getattr(B, "signed", False):
+            r_ = AInt([ZERO] * rc + list(A.bits))           # the sign bit stays on top
+            r_.signed = True
+            return r_
+        elif isinstance(op, ast.RShift) and rc is not None and getattr(A, "signed", False) and A.ext is None and not getattr(B, "signed", False):
+            keep = A.bits[rc:] or [A.bits[-1]]              # arithmetic shift: the sign bit stays on top
+            r_ = AInt(list(keep))
+            r_.signed = True
+            return r_
+        else:
+            raise Abort(f"arithmetic on a signed abstract integer ({type(op).__name__}) at {fr.fi.module.relpath}:{getattr(node, 'lineno', 0)}")
     if isinstance(op, ast.LShift) and rc is not None:
         return AInt([ZERO] * rc + A.bits, A.ext and (A.ext, "shl", rc), A.interp) if A.ext is None else shifted_ext(fr, A, rc)
     if isinstance(op, ast.RShift) and rc is not None:
@@ -1763,6 +1779,14 @@ def method(fr, base, name, args, kw, n):
         if name == "to_bytes":
             length = fr.cint(kw.get("length", args[0] if args else 1))
             order = kw.get("byteorder", args[1] if len(args) > 1 else "big")
+            if getattr(base, "signed", False) and not kw.get("signed"):
+                sb_ = I.simp(base.bits[-1]) if base.bits else ZERO
+                if not (isinstance(sb_, F) and sb_.is_const and sb_.c == 0):
+                    # a two's-complement value whose sign bit is free is negative for some inputs: int.to_bytes refuses those
+                    raise PartialRaise("OverflowError", f"can't convert negative int to unsigned at {fr.fi.module.relpath}:{n.lineno}")
+                base = AInt(list(base.bits[:-1]) or [ZERO])
+            elif getattr(base, "signed", False):
+                raise Abort("to_bytes(signed=True) of an abstract integer")
             bits = base.msb_first(length * 8)
             if order == "little":
                 by = [bits[i * 8:i * 8 + 8] for i in range(length)]
@@ -2101,6 +2125,99 @@ def bits_method(fr, b: ABits, name, args, kw, n):
 # ------------------------------------------------------------------------------------------------ external callables
 
 
+_STRUCT_SIZES = {"x": 1, "c": 1, "b": 1, "B": 1, "?": 1, "h": 2, "H": 2, "i": 4, "I": 4, "l": 4, "L": 4, "q": 8, "Q": 8, "s": 1}
+
+
+def struct_model(fr, fn, args, kw, n):
+    """struct.unpack / unpack_from / pack / calcsize for formats with an explicit byte order and the integer / char / bytes / pad
+    codes: fields are cut out of (or laid into) the octets exactly; signed codes give two's-complement abstract integers"""
+    import re as _re
+    I = fr.I
+    fmt = args[0]
+    if not fmt or fmt[0] not in "<>!=":
+        return NotImplemented   # native alignment: not modelled
+    little = fmt[0] == "<"
+    items = []
+    for cnt, code in _re.findall(r"(\d*)([a-zA-Z?])", fmt[1:].replace(" ", "")):
+        if code not in _STRUCT_SIZES:
+            return NotImplemented
+        c = int(cnt) if cnt else 1
+        if code == "s":
+            items.append(("s", c))
+        else:
+            items.extend([(code, _STRUCT_SIZES[code])] * c)
+    total = sum(sz for _, sz in items)
+    if fn == "calcsize":
+        return total
+    if fn in ("unpack", "unpack_from"):
+        buf = kw.get("buffer", args[1] if len(args) > 1 else None)
+        off = kw.get("offset", args[2] if len(args) > 2 else 0) if fn == "unpack_from" else 0
+        off = fr.cint(off)
+        if isinstance(buf, AOpq):
+            return I.opaque("struct.unpack of opaque")
+        b = fr.as_bytes_val(buf)
+        nb = len(b.items) // 8
+        if off < 0:
+            off += nb
+        if (fn == "unpack" and nb != total) or (fn == "unpack_from" and (off < 0 or nb - off < total)):
+            raise PathRaise("struct.error", f"unpack requires a buffer of {total} bytes at {fr.fi.module.relpath}:{n.lineno}")
+        out, pos = [], off
+        for code, sz in items:
+            chunk = [b.items[(pos + k) * 8:(pos + k) * 8 + 8] for k in range(sz)]
+            pos += sz
+            if code == "x":
+                continue
+            if code in ("s", "c"):
+                out.append(ABits([x for c_ in chunk for x in c_], "bytes"))
+                continue
+            if little:
+                chunk = list(reversed(chunk))
+            msb = [x for c_ in chunk for x in c_]
+            if code == "?":
+                out.append(AInt([OB("struct '?' truthiness")], isbool=True) if False else I.opaque("struct ? field"))
+                continue
+            v = AInt(list(reversed(msb)))
+            if code in "bhilq":
+                v.signed = True
+            out.append(v)
+        return tuple(out)
+    if fn == "pack":
+        vals = list(args[1:])
+        outb = []
+        vi = 0
+        for code, sz in items:
+            if code == "x":
+                outb.extend([ZERO] * 8 * sz)
+                continue
+            if vi >= len(vals):
+                raise PathRaise("struct.error", "pack expected more items")
+            v = vals[vi]
+            vi += 1
+            if code in ("s", "c"):
+                vb = fr.as_bytes_val(v)
+                bits = list(vb.items)[:8 * sz]
+                bits += [ZERO] * (8 * sz - len(bits))
+                outb.extend(bits)
+                continue
+            if code in "bhilq?":
+                return NotImplemented
+            A = fr.to_int(v)
+            if A.ext is not None or getattr(A, "signed", False):
+                return NotImplemented
+            hi = I.simp_bits(A.bits[8 * sz:])
+            if not all(isinstance(x, F) and x.is_const and x.c == 0 for x in hi):
+                raise PartialRaise("struct.error", f"'{code}' format requires 0 <= number < 2**{8 * sz} at {fr.fi.module.relpath}:{n.lineno}")
+            msb = A.msb_first(8 * sz)
+            chunk = [msb[k * 8:k * 8 + 8] for k in range(sz)]
+            if little:
+                chunk = list(reversed(chunk))
+            outb.extend(x for c_ in chunk for x in c_)
+        if vi != len(vals):
+            raise PathRaise("struct.error", "pack expected fewer items")
+        return ABits(outb, "bytes")
+    return NotImplemented
+
+
 def external(fr, name, args, kw, n):
     I = fr.I
     short = name.split(".")[-1]
@@ -2323,6 +2440,10 @@ def external(fr, name, args, kw, n):
         return I.opaque(name, notnone=True)
     if name.startswith("datetime.") or name.startswith("time.") or name.startswith("secrets.") or name.startswith("random.") or name.startswith("uuid."):
         return I.opaque("impure:" + name, notnone=True)
+    if name in ("struct.unpack", "struct.unpack_from", "struct.pack", "struct.calcsize") and args and isinstance(args[0], str):
+        r_ = struct_model(fr, name.split(".")[1], args, kw, n)
+        if r_ is not NotImplemented:
+            return r_
     if name == "struct.pack" or name == "struct.unpack":
         return I.opaque(name)
     return I.opaque(f"external {name}")
